@@ -58,6 +58,15 @@ CLAIMS["C16"] = dict(
     design="DESIGN.md section 4, C16 and appendix C.2",
 )
 
+CLAIMS["C10"] = dict(
+    text=("Deductive proof of the soundness half of auth.Verify for all requests, credentials and method sets: acceptance implies the scheme "
+          "(and for Digest the algorithm) is among the enabled methods, user name, realm and nonce equal the expected ones, the URL rule "
+          "held for the received URI, and the response equals the hash term built from the EXPECTED user, realm, password, nonce and the "
+          "request's method (Basic: user and password equal). Hash functions and the URL rule are uninterpreted functions of their arguments."),
+    note=TRUST + "Strings are an uninterpreted sort with equality, length and concatenation. Completeness (credentials produced by the library's own Sender are accepted), header marshal/unmarshal round trips and the server's 401/close behaviour are not decided by this check.",
+    design="DESIGN.md section 4, C10",
+)
+
 NOT_APPLICABLE = {
     "C11": "process-level property over channels, goroutines and timeouts (no deadlock, cleanup of goroutines/sessions): not expressible as a contract on one call or one data structure; the leaf validators it relies on are covered under other properties",
     "C13": "liveness and schedule property (Close returns in bounded time under all interleavings, no leaked goroutine or socket, callback ordering): outside sequential contract-based verification",
